@@ -107,29 +107,39 @@ def unaryAsgn (index : Nat) (x : String) (op : String) (e0 : Node) : M (Option (
   let step4 := if op == Gen.opSizeof then some (index, constAsgn x) else step3
   pure step4
 
-/-- `Analysis.while_loop` (also do-while) once the single child `node.stmt` has been analysed -/
-def whileFinish (rb : Out) : M Out :=
+/-- `Analysis.while_loop` (also do-while) once the single child `node.stmt` has been analysed.
+    `q` = run to completion (`cmds(stop=False)`): the delta graph is a `_NoDeltaGraph`. -/
+def whileFinish (q : Bool) (rb : Out) : M Out :=
   if rb.exit then pure rb
   else do
     let rels := RelList.composition RelList.empty rb.rels
     let rels ← RelList.fixpoint rels
-    let (rels, dg') ← RelList.whileCorrection rels rb.dg
-    let dg'' ← DG.fusion dg'
-    pure ⟨rb.index, rels, DG.isEmpty dg'', dg'', rb.skipped⟩
+    if q then
+      -- run to completion: `_NoDeltaGraph` records nothing and never reports failure
+      let (rels, _) ← RelList.whileCorrection rels []
+      pure ⟨rb.index, rels, false, rb.dg, rb.skipped⟩
+    else
+      let (rels, dg') ← RelList.whileCorrection rels rb.dg
+      let dg'' ← DG.fusion dg'
+      pure ⟨rb.index, rels, DG.isEmpty dg'', dg'', rb.skipped⟩
 
 /-- `Analysis.for_loop` once the body has been analysed (`x` = the loop guard variable) -/
-def forFinish (x : String) (rb : Out) : M Out :=
+def forFinish (q : Bool) (x : String) (rb : Out) : M Out :=
   if rb.exit then pure rb
   else do
     let rels := RelList.composition (RelList.ofVars [x]) rb.rels
     let rels ← RelList.fixpoint rels
-    let (rels, dg') ← RelList.loopCorrection rels x rb.dg
-    let dg'' ← DG.fusion dg'
-    pure ⟨rb.index, rels, DG.isEmpty dg'', dg'', rb.skipped⟩
+    if q then
+      let (rels, _) ← RelList.loopCorrection rels x []
+      pure ⟨rb.index, rels, false, rb.dg, rb.skipped⟩
+    else
+      let (rels, dg') ← RelList.loopCorrection rels x rb.dg
+      let dg'' ← DG.fusion dg'
+      pure ⟨rb.index, rels, DG.isEmpty dg'', dg'', rb.skipped⟩
 
 mutual
 /-- `Analysis.compute_relation` -/
-def compute (index : Nat) (dg : DG.Graph) : Node → M Out
+def compute (q : Bool) (index : Nat) (dg : DG.Graph) : Node → M Out
   | .ret _ => pure (skip index dg)
   | .brk => pure (skip index dg)
   | .cont => pure (skip index dg)
@@ -155,51 +165,51 @@ def compute (index : Nat) (dg : DG.Graph) : Node → M Out
       pure ⟨i, rl, false, dg, []⟩
     else pure (skip index dg)
   | .ifs _ t f => do
-    let rt ← branch index dg t
+    let rt ← branch q index dg t
     if rt.exit then pure rt
     else
-      let rf ← branch rt.index rt.dg f
+      let rf ← branch q rt.index rt.dg f
       if rf.exit then pure { rf with skipped := rt.skipped ++ rf.skipped }
       else pure ⟨rf.index, RelList.add rf.rels rt.rels, false, rf.dg, rt.skipped ++ rf.skipped⟩
-  | .while_ _ b => do whileFinish (← compute index dg b)
-  | .doWhile _ b => do whileFinish (← compute index dg b)
+  | .while_ _ b => do whileFinish q (← compute q index dg b)
+  | .doWhile _ b => do whileFinish q (← compute q index dg b)
   | n@(.for_ _ _ _ b) => do
     let (comp, x) ← Syntax.loopCompat n
     match comp, x with
-    | true, some x => do forFinish x (← compute index dg b)
+    | true, some x => do forFinish q x (← compute q index dg b)
     | _, _ => pure (skip index dg)
   | .compound none => pure (skip index dg)
-  | .compound (some l) => computeList index dg RelList.empty [] l
-  | .label _ st => compute index dg st                           -- a label is only a marker
-  | .exprList es => computeList index dg RelList.empty [] es     -- `compound(Compound(node.exprs))`
-  | .cast e => compute index dg e                                -- `(type) e;` has the effect of `e;`
+  | .compound (some l) => computeList q index dg RelList.empty [] l
+  | .label _ st => compute q index dg st                           -- a label is only a marker
+  | .exprList es => computeList q index dg RelList.empty [] es     -- `compound(Compound(node.exprs))`
+  | .cast e => compute q index dg e                                -- `(type) e;` has the effect of `e;`
   | n@(.funcCall name _) =>
     if Syntax.isAssertAssume name then pure (skip index dg) else pure (skip index dg [n.cls])
   | n => pure (skip index dg [n.cls])
 /-- body of `Analysis.compound`: compose, THEN test the exit flag -/
-def computeList (index : Nat) (dg : DG.Graph) (acc : RelList) (sk : List String) : List Node → M Out
+def computeList (q : Bool) (index : Nat) (dg : DG.Graph) (acc : RelList) (sk : List String) : List Node → M Out
   | [] => pure ⟨index, acc, false, dg, sk⟩
   | n :: ns => do
-    let r ← compute index dg n
+    let r ← compute q index dg n
     let acc' := RelList.composition acc r.rels
     if r.exit then pure ⟨r.index, acc', true, r.dg, sk ++ r.skipped⟩
-    else computeList r.index r.dg acc' (sk ++ r.skipped) ns
+    else computeList q r.index r.dg acc' (sk ++ r.skipped) ns
 /-- `Analysis.if_branch`: a Compound is walked item-wise (exit BEFORE composing), any other
     node is a single child, an absent branch is the empty relation list -/
-def branch (index : Nat) (dg : DG.Graph) : Option Node → M Out
+def branch (q : Bool) (index : Nat) (dg : DG.Graph) : Option Node → M Out
   | none => pure (skip index dg)
   | some (.compound none) => pure (skip index dg)
-  | some (.compound (some l)) => branchList index dg RelList.empty [] l
+  | some (.compound (some l)) => branchList q index dg RelList.empty [] l
   | some n => do
-    let r ← compute index dg n
+    let r ← compute q index dg n
     if r.exit then pure ⟨r.index, RelList.empty, true, r.dg, r.skipped⟩
     else pure ⟨r.index, RelList.composition RelList.empty r.rels, false, r.dg, r.skipped⟩
-def branchList (index : Nat) (dg : DG.Graph) (acc : RelList) (sk : List String) : List Node → M Out
+def branchList (q : Bool) (index : Nat) (dg : DG.Graph) (acc : RelList) (sk : List String) : List Node → M Out
   | [] => pure ⟨index, acc, false, dg, sk⟩
   | n :: ns => do
-    let r ← compute index dg n
+    let r ← compute q index dg n
     if r.exit then pure ⟨r.index, acc, true, r.dg, sk ++ r.skipped⟩
-    else branchList r.index r.dg (RelList.composition acc r.rels) (sk ++ r.skipped) ns
+    else branchList q r.index r.dg (RelList.composition acc r.rels) (sk ++ r.skipped) ns
 end
 
 /-- `Analysis.cmds` -/
@@ -211,7 +221,7 @@ def cmds (rels : RelList) (index : Nat) (nodes : List Node) (stop : Bool) :
         List Node → M (Bool × Nat × RelList × List String)
       | [] => pure (inf, index, rels, sk)
       | n :: ns => do
-        let r ← compute index dg n
+        let r ← compute (!stop) index dg n
         let inf' := inf || r.exit
         if stop && inf' then pure (inf', r.index, rels, sk ++ r.skipped)
         else go (RelList.composition rels r.rels) r.index r.dg inf' (sk ++ r.skipped) ns
